@@ -44,9 +44,9 @@ harness!(c08_bbox_intersection_grid, unwind = 2, {
 });
 
 // BoundingBox IoU: in [0,1], symmetric, 1 for identical boxes, 0 exactly when disjoint, = I/(A1+A2-I)
-harness!(c08_bbox_iou_grid, unwind = 2, {
-    let (ka, a) = grid_ltwh(16, 16);
-    let (kb, b) = grid_ltwh(16, 16);
+fn iou_check(pos: i32, size: i32) {
+    let (ka, a) = grid_ltwh(pos, size);
+    let (kb, b) = grid_ltwh(pos, size);
     let iou = BoundingBox::calculate_metric_object(&Some(&a), &Some(&b)).unwrap();
     let iou_r = BoundingBox::calculate_metric_object(&Some(&b), &Some(&a)).unwrap();
     let inter = overlap16(ka, kb);
@@ -54,13 +54,19 @@ harness!(c08_bbox_iou_grid, unwind = 2, {
     assert!(iou >= 0.0 && iou <= 1.0, "IoU in [0,1]");
     assert!(iou == iou_r, "IoU symmetric");
     assert!((iou == 0.0) == (inter == 0), "IoU 0 exactly when disjoint");
-    // exact rational value inter/union, compared by cross-multiplication with one f64 rounding + one f32 rounding
+    // exact rational value inter/union: one f64 rounding + one f32 rounding, the same operations on the same operands
     let exact = (inter as f64) / (union as f64);
     assert!(iou == (exact as f32), "IoU = intersection / union");
     let same = BoundingBox::calculate_metric_object(&Some(&a), &Some(&a)).unwrap();
     assert!(same == 1.0, "IoU of a box with itself is 1");
     assert!(BoundingBox::calculate_metric_object(&None, &Some(&a)).is_none());
     assert!(BoundingBox::calculate_metric_object(&Some(&a), &None).is_none());
+}
+harness!(c08_bbox_iou_small, unwind = 2, {
+    iou_check(6, 6);
+});
+harness!(c08_bbox_iou_grid, unwind = 2, {
+    iou_check(16, 16);
 });
 
 fn grid_ubox(pos: i32, size: i32) -> ((i32, i32, i32, i32), Universal2DBox) {
